@@ -92,7 +92,7 @@ func (data RemoveLimitOrderData) Run(tx *Transaction, context state.Interface, r
 	if isGasCommissionFromPoolSwap && swapper.GetID() == commissionPoolSwapper.GetID() {
 		commissionInBaseCoin, _ = commissionPoolSwapper.CalculateBuyForSellWithOrders(commission)
 		if tx.GasCoin == order.Coin0 && order.Coin1.IsBaseCoin() {
-			swapper = swapper.AddLastSwapStepWithOrders(commission, commissionInBaseCoin, true)
+			swapper = swapper.AddLastSwapStepWithOrders(commission, commissionInBaseCoin, false)
 		}
 		if tx.GasCoin == order.Coin1 && order.Coin0.IsBaseCoin() {
 			swapper = swapper.AddLastSwapStepWithOrders(big.NewInt(0).Neg(commissionInBaseCoin), big.NewInt(0).Neg(commission), true)
